@@ -23,9 +23,13 @@ CONSTANTS
   FdKinds = {"none", "same", "less", "more"}
   TrustFd = FALSE
   CommitAfterRead = TRUE
+  Bases = {0, 1, 2}
+  TellOffsets = TRUE
+  FreshLists = TRUE
 SPECIFICATION Spec
 INVARIANT TypeOK
 INVARIANT IndexExact
 INVARIANT Refines
+PROPERTY NamesExact
 VIEW ImplView
 CHECK_DEADLOCK FALSE
